@@ -230,6 +230,13 @@ def gen_program(rng, prop, name, world, tier, no_chdir=False):
             elif k == "write":
                 prog.append({"op": "calc.write", "h": h, "vars": None, "expect_ok": valid})
             elif k == "writevars":
+                if rng.random() < 0.12:
+                    lst = [e for e in gen_var_list(rng, "pressure_base") if (e if isinstance(e, str) else e["keyword"]) not in ("v", "V", "volume", "volumes")]
+                    both_kw = {kw for r in W.rules()["rules"] if "tp" in r["bases"] and "tv" in r["bases"] for kw in r["keywords"]}
+                    lst = [e for e in lst if (e if isinstance(e, str) else e["keyword"]) in both_kw]
+                    if lst:
+                        prog.append({"op": "calc.write", "h": h, "vars": {"base": "both", "list": lst}, "expect_ok": valid})
+                        continue
                 base = rng.choice(["pressure_base", "volume_base"])
                 prog.append({"op": "calc.write", "h": h, "vars": {"base": base, "list": gen_var_list(rng, base)}, "expect_ok": valid})
             elif k == "run":
@@ -238,6 +245,9 @@ def gen_program(rng, prop, name, world, tier, no_chdir=False):
                 hn = name.lower() + "h" + str(len(prog))
                 handles.append(hn)
                 prog.append(_calc_new(hn, rng, valid))
+                if recent_reads and rng.random() < 0.6:      # the same calculation again in the same process: must agree with the first
+                    b, n = rng.choice(recent_reads)
+                    prog.append({"op": "calc.read", "h": hn, "base": b, "name": n})
             elif k == "mutate":
                 r = rng.random()
                 if r < 0.5:
@@ -298,11 +308,13 @@ def _rand_val(rng, lo=1e-3, hi=1e5, signed=True):
     return float(f"{x:.9g}")
 
 
-def gen_energy_data(rng, tier, small=False):
+def gen_energy_data(rng, tier, small=False, shape=None):
     """an arbitrary phonon data set for write_energy (C17): counts 1-12 / 1-10 / 3-60, either sign, up to 1e5"""
     nv = rng.randint(1, 4 if small else 12)
     nq = rng.randint(1, 3 if small else 10)
     np_ = rng.randint(3, 9 if small else 60)
+    if shape is not None:
+        nv, nq, np_ = shape
     d = {"nv": nv, "nq": nq, "np": np_, "nm": rng.randint(1, 9), "na": rng.randint(1, 20),
          "pressures": [_rand_val(rng) for _ in range(nv)], "volumes": [_rand_val(rng) for _ in range(nv)],
          "energies": [_rand_val(rng) for _ in range(nv)],
@@ -316,6 +328,7 @@ def gen_program_c17(rng, name, world, tier):
     prog = []
     n = rng.randint(4, 10)
     paths = []
+    last = {}
     h0 = name.lower() + "0"
     for _ in range(n):
         r = rng.random()
@@ -328,12 +341,16 @@ def gen_program_c17(rng, name, world, tier):
             prog.append({"op": "calc.read", "h": h0, "base": "calc", "name": rng.choice(["qha_input", "elast_data"])})
         elif r < 0.65:
             if paths and rng.random() < 0.4:
-                p = rng.choice(paths)      # overwrite an existing file (often with a smaller data set)
-                d = gen_energy_data(rng, tier, small=rng.random() < 0.6)
+                p = rng.choice(paths)      # overwrite an existing file: often with a smaller data set, or with other values of the same shape
+                if rng.random() < 0.45:    # (the fixed-width writer then produces a file of exactly the same size)
+                    d = gen_energy_data(rng, tier, shape=(last[p]["nv"], last[p]["nq"], last[p]["np"]))
+                else:
+                    d = gen_energy_data(rng, tier, small=rng.random() < 0.6)
             else:
                 p = f"we_{name.lower()}{len(paths)}.dat"
                 paths.append(p)
                 d = gen_energy_data(rng, tier, small=rng.random() < 0.3)
+            last[p] = d
             prog.append({"op": "io.write_energy", "path": p, "data": d, "abs": rng.random() < 0.5,
                          "comment": rng.choice([None, "written by the simulator", "QHA data 1 2 3"]), "expect_ok": True})
         elif r < 0.85 and paths:
@@ -421,7 +438,7 @@ def tp_variables(world, prog):
         if op["op"] in ("calc.write", "cli.run"):
             if op.get("vars") is None:
                 entries = eff.get("pressure_base", [])
-            elif op["vars"]["base"] == "pressure_base":
+            elif op["vars"]["base"] in ("pressure_base", "both"):
                 entries = op["vars"]["list"]
         elif op["op"] == "env.mutate_config" and op.get("what") == "append_output" and op.get("base") == "pressure_base":
             pass
@@ -700,6 +717,10 @@ def gen_scenario(prop, seed, tier, faults_enabled=None, nclients=None, segments_
             for op in p:
                 if "abs" in op:
                     op["abs"] = True
+    for n in names:          # the simulated clock (file timestamps) advances before some operations, and only then
+        for op in programs[n]:
+            if rng.random() < 0.25:
+                op["tick"] = rng.choice([1, 1, 2, 3, 60, 3600, 86400])
     extra = []
     for n in names:
         w = worlds[n]
@@ -750,7 +771,7 @@ def gen_scenario(prop, seed, tier, faults_enabled=None, nclients=None, segments_
 
 ORACLES = {
     "C12": ["O-inv"],
-    "C14": ["O-twice", "O-frame", "O-live"],
+    "C14": ["O-twice", "O-frame", "O-live", "O-order"],
     "C15": ["O-disk", "O-frame", "O-twice"],
     "C17": ["O-round"],
     "C19": ["O-extract"],
